@@ -144,7 +144,11 @@ theorem nothing_sent_outside_connection (e : Engine) (all : Bool) (cap fuel : Na
 theorem disconnect_written_ends_sending (e : Engine) (id : Nat) (o : Op) (d : Disconnect)
     (hc : e.current = some id) (ho : e.op? id = some o) (hp : o.packet = .disconnect d) :
     ∃ e', e.onFullyWritten = some e' ∧ e'.state = .pendingDisconnect := by
-  simp only [Engine.onFullyWritten, Engine.fileWritten, hc, ho, hp]
+  have harm : ∀ en : Engine, en.armPingDeadline o = en := by
+    intro en; unfold Engine.armPingDeadline; rw [hp]
+  simp only [Engine.onFullyWritten, hc, ho]
+  rw [harm]
+  simp only [Engine.fileWritten, hp]
   refine ⟨_, rfl, ?_⟩
   simp only [Engine.startAckTimeout]
   split <;> simp [Engine.setOp]
